@@ -315,7 +315,22 @@ pub fn attach_dwarf_simple(bytes: &[u8], ch: &mut Ch) -> Option<Vec<u8>> {
 
 /// Append synthesized DWARF sections to a module (as trailing custom sections).
 pub fn attach(bytes: &[u8], m: &ModuleD, plan: &DwarfPlan) -> Option<Vec<u8>> {
-    let secs = synthesize(m, plan)?;
+    attach_with(bytes, m, plan, false, false)
+}
+
+/// The same sections in reverse order (section order carries no meaning),
+/// optionally with a header-only `.debug_str_offsets` table (DWARF 5, no
+/// entries; nothing refers to it) in front of `.debug_str`.
+pub fn attach_with(bytes: &[u8], m: &ModuleD, plan: &DwarfPlan, reverse: bool, str_offsets: bool) -> Option<Vec<u8>> {
+    let mut secs = synthesize(m, plan)?;
+    if reverse {
+        secs.reverse();
+    }
+    if str_offsets {
+        let at = secs.iter().position(|s| s.0 == ".debug_str").unwrap_or(0);
+        // unit_length = 4, version = 5, padding = 0
+        secs.insert(at, (".debug_str_offsets".to_string(), vec![4, 0, 0, 0, 5, 0, 0, 0]));
+    }
     let mut out = bytes.to_vec();
     for (name, data) in secs {
         let mut payload = Vec::new();
@@ -354,6 +369,15 @@ pub fn attach_dwarf(bytes: &[u8], ch: &mut Ch) -> Option<Vec<u8>> {
     }
     let plan = gen_plan(&m, ch);
     attach(bytes, &m, &plan)
+}
+
+pub fn attach_dwarf_with(bytes: &[u8], ch: &mut Ch, reverse: bool, str_offsets: bool) -> Option<Vec<u8>> {
+    let m = decode(bytes).ok()?;
+    if m.funcs.is_empty() {
+        return None;
+    }
+    let plan = gen_plan(&m, ch);
+    attach_with(bytes, &m, &plan, reverse, str_offsets)
 }
 
 // ---------------------------------------------------------------------------
